@@ -703,6 +703,9 @@ pub fn acts_from_json(v: &serde_json::Value) -> Vec<Act> {
 }
 
 fn recheck(c: &Case) -> Vec<Violation> {
+    if c.cfg.get("census").is_some() {
+        return crate::props::builder_ops::check_case(c);
+    }
     let acts = acts_from_json(&c.cfg["history"]);
     match check_history(&acts) {
         Some((sig, d)) => vec![Violation::new("C15", sig, d, c)],
@@ -754,11 +757,20 @@ pub fn run(args: &Args) -> i32 {
         let c = Case { family: "builder".into(), coords: format!("{} actions", h.len()), wasm: vec![0; h.len()], cfg: json!({"history": acts_json(&h)}) };
         viol.push(Violation::new("C15", sig, d, &c));
     }
+    // the operand census through the builder (props/builder_ops.rs)
+    let census = crate::props::builder_ops::cases();
+    for c in &census {
+        ev.evaluations += 1;
+        ev.transitions += 1;
+        viol.extend(crate::props::builder_ops::check_case(c));
+    }
+    ev.extra.insert("builder_operand_census".into(), json!({"instruction_kinds": crate::props::builder_ops::KINDS.len(), "cases": census.len()}));
     ev.sample(json!({"history": ["Construct{seq:0,pos:None,kind:Block,fill:true}", "Unit{seq:1,pos:Some(1),unit:BrIf(0)}", "Unit{seq:0,pos:Some(0),unit:ConstSet(B)}"]}));
     ev.rule = format!(
         "every history of at most {} builder actions (append/insert-at-every-instruction-position of 5 stack-neutral units + br/br_if to every enclosing sequence; block/loop/if_else through the \
          closure API with empty or filled closures; dangling sequence created and attached later at any position as block or loop), nesting <= {}, replayed on the real FunctionBuilder and on a \
-         reference tree; the oracle runs in every state (every prefix); plus every history of exactly {} actions that uses the append API only. states = histories; non-trivial = distinct reference flattenings reached",
+         reference tree; the oracle runs in every state (every prefix); plus every history of exactly {} actions that uses the append API only. plus the builder operand census: every entity-naming instruction of the builder API x every assignment of its operands over two entities per index space x two creation orders, emitted and decoded, \
+         the immediates must denote the entities given. states = histories; non-trivial = distinct reference flattenings reached",
         depth, nest, append_depth
     );
     ev.bounds = json!({"actions": depth, "nesting": nest});
